@@ -148,6 +148,24 @@ class SymEnv(BaseEnv):
     def cbrt(self, x):
         return (x if isinstance(x, SR) else SR(x)).cbrt()
 
+    def lift(self, x):
+        return x if isinstance(x, SR) else SR(x)
+
+    def sin(self, x):
+        return self.lift(x).sin()
+
+    def cos(self, x):
+        return self.lift(x).cos()
+
+    def tanh(self, x):
+        return self.lift(x).tanh()
+
+    def arctan2(self, y, x):
+        return core.arctan2(y, x)
+
+    def arccos(self, x):
+        return self.lift(x).arccos()
+
     def is_true(self, cond):
         """fork on an oracle condition (use sparingly)"""
         return bool(cond)
@@ -400,6 +418,24 @@ class RealEnv(BaseEnv):
 
     def cbrt(self, x):
         return float(x) ** (1 / 3) if x >= 0 else math.nan
+
+    def lift(self, x):
+        return float(x)
+
+    def sin(self, x):
+        return math.sin(x)
+
+    def cos(self, x):
+        return math.cos(x)
+
+    def tanh(self, x):
+        return math.tanh(x)
+
+    def arctan2(self, y, x):
+        return math.atan2(y, x)
+
+    def arccos(self, x):
+        return math.acos(max(-1.0, min(1.0, x)))
 
     def is_true(self, cond):
         return bool(cond)
